@@ -1550,12 +1550,80 @@ fn sub_c13_referenced(input: &[u8], st: &mut Stats) -> R {
     Ok(())
 }
 
+/// `placed-declarations` (round 22): a scalar type declaration placed by the caller anywhere in the
+/// section with `insert_types_global_values` (the instruction is a copy of what the Builder itself
+/// emits for that request, so its operands are the Builder's own spelling), between implicit
+/// requests; the implicit request for that type then returns the id of one of the identical
+/// declarations present and adds nothing.
+fn c13_scalar(b: &mut Builder, k: usize) -> u32 {
+    match k {
+        0 => b.type_void(),
+        1 => b.type_bool(),
+        2..=9 => b.type_int([8, 16, 32, 64][(k - 2) / 2], ((k - 2) % 2) as u32),
+        _ => b.type_float([16, 32, 64][(k - 10) % 3], None),
+    }
+}
+fn sub_c13_placed(input: &[u8], st: &mut Stats) -> R {
+    let mut cs = Cs::new(input);
+    let mut b = Builder::new();
+    let mut log = String::new();
+    for _ in 0..cs.below(4) {
+        let k = cs.below(13);
+        let id = c13_scalar(&mut b, k);
+        log.push_str(&format!("request({})=%{}; ", k, id));
+    }
+    let k = cs.below(13);
+    let mut scratch = Builder::new();
+    c13_scalar(&mut scratch, k);
+    let Some(mut inst) = scratch.module_ref().types_global_values.last().cloned() else { return Ok(()) };
+    let placed = b.id();
+    inst.result_id = Some(placed);
+    let len = b.module_ref().types_global_values.len();
+    let (at, at_s) = match cs.below(4) {
+        0 => (dr::InsertPoint::Begin, "Begin".to_string()),
+        1 => (dr::InsertPoint::End, "End".to_string()),
+        2 => {
+            let o = cs.below(len + 1);
+            (dr::InsertPoint::FromBegin(o), format!("FromBegin({})", o))
+        }
+        _ => {
+            let o = cs.below(len + 1);
+            (dr::InsertPoint::FromEnd(o), format!("FromEnd({})", o))
+        }
+    };
+    log.push_str(&format!("place({})=%{} at {}; ", k, placed, at_s));
+    let not_at_end = !matches!(at, dr::InsertPoint::End | dr::InsertPoint::FromEnd(0)) && len > 0;
+    b.insert_types_global_values(at, inst.clone());
+    for _ in 0..cs.below(3) {
+        let k2 = cs.below(13);
+        let id = c13_scalar(&mut b, k2);
+        log.push_str(&format!("request({})=%{}; ", k2, id));
+    }
+    let same: Vec<u32> = b.module_ref().types_global_values.iter().filter(|x| x.class.opcode == inst.class.opcode && x.operands == inst.operands).filter_map(|x| x.result_id).collect();
+    let before = b.module_ref().types_global_values.len();
+    let got = c13_scalar(&mut b, k);
+    log.push_str(&format!("request({})=%{}", k, got));
+    let after = b.module_ref().types_global_values.len();
+    if after != before || !same.contains(&got) {
+        return Err(Fail::new("type-dedup", format!("placed-declaration:{:?}", inst.class.opcode), format!("identical declarations present: {:?}; the implicit request returned %{} and added {} declaration(s)", same, got, after - before)).with_decoded(log));
+    }
+    let probe = b.id();
+    if probe <= got || probe <= placed || b.module().header.map(|h| h.bound) != Some(probe + 1) {
+        return Err(Fail::new("bound", "placed-declaration", format!("probe id %{} after placing %{}", probe, placed)).with_decoded(log));
+    }
+    if not_at_end {
+        st.nontrivial(hash_str(&log));
+    }
+    Ok(())
+}
+
 pub const C13_SUBS: &[Sub] = &[
     Sub { name: "type-sweep", f: sub_c13_type_sweep },
     Sub { name: "histories", f: sub_c13_histories },
     Sub { name: "continued-histories", f: sub_c13_continued },
     Sub { name: "long-type-runs", f: sub_c13_long },
     Sub { name: "referenced-types", f: sub_c13_referenced },
+    Sub { name: "placed-declarations", f: sub_c13_placed },
 ];
 
 pub fn c13_run(ctx: &Ctx) {
@@ -1568,6 +1636,7 @@ pub fn c13_run(ctx: &Ctx) {
         let nd = golden().enums.get("Decoration").map(|e| e.value_set.len()).unwrap_or(0);
         drive_enum(ctx, &C13_SUBS[4], (pools().types.len() * (nd * 5 + 5) + vocabulary_codes() * pools().types.len() * nd) as u64);
     }
+    drive_random(ctx, &C13_SUBS[5], ctx.n(40_000, 4_000_000), 300);
     if !ctx.quick() && !ctx.failed() {
         crate::fuzzing::drive_fuzz(ctx, "builder", 200000);
     }
@@ -1577,7 +1646,7 @@ pub fn c13_finish(ctx: &Ctx) -> i32 {
     crate::engine::finish(
         ctx,
         Finish {
-            rule: "cases: (a) every generated type method (and type_pointer): requested twice implicitly with equal arguments, once with an explicit id, once more implicitly; (b) histories of 0-50 calls dominated by type requests over a small argument alphabet (so repeats are frequent) with and without explicit ids, interleaved with id(), constants, module-level and block-level calls that fail after reserving an id, optionally continuing from new_from_module with bound 0 / 1 / random / near u32::MAX. (b') long runs of 300-800 calls dominated by type requests (hundreds of declarations, each requested again many times); (c) two- and three-phase histories: module() then new_from_module(module) and on, with type requests repeating declarations made before the hand-over. Oracle (model R4): fresh ids strictly increasing from 1 / the bound (a failed id-reserving call may skip one id), explicit ids returned unchanged; implicit type request returns the id of an earlier identical declaration and leaves the module unchanged, otherwise appends exactly one declaration with a fresh id; explicit request always appends; final probe = id(), module().header.bound == probe + 1 and > every allocated id. non-trivial = history with >= 1 repeated implicit type request and >= 1 failing id-reserving call (sweep: each type method); distinct = hash of the rendered history. Added in rounds 18-19: referenced-types (type id named by every decoration / name / typed declaration, alone and under vocabulary preloads, before the repeated request).",
+            rule: "cases: (a) every generated type method (and type_pointer): requested twice implicitly with equal arguments, once with an explicit id, once more implicitly; (b) histories of 0-50 calls dominated by type requests over a small argument alphabet (so repeats are frequent) with and without explicit ids, interleaved with id(), constants, module-level and block-level calls that fail after reserving an id, optionally continuing from new_from_module with bound 0 / 1 / random / near u32::MAX. (b') long runs of 300-800 calls dominated by type requests (hundreds of declarations, each requested again many times); (c) two- and three-phase histories: module() then new_from_module(module) and on, with type requests repeating declarations made before the hand-over. Oracle (model R4): fresh ids strictly increasing from 1 / the bound (a failed id-reserving call may skip one id), explicit ids returned unchanged; implicit type request returns the id of an earlier identical declaration and leaves the module unchanged, otherwise appends exactly one declaration with a fresh id; explicit request always appends; final probe = id(), module().header.bound == probe + 1 and > every allocated id. non-trivial = history with >= 1 repeated implicit type request and >= 1 failing id-reserving call (sweep: each type method); distinct = hash of the rendered history. Added in rounds 18-19: referenced-types (type id named by every decoration / name / typed declaration, alone and under vocabulary preloads, before the repeated request). Added in round 22: placed-declarations (a scalar type declaration placed anywhere in the section through insert_types_global_values between implicit requests; the implicit request then returns one of the identical declarations present and adds nothing; non-trivial = placed before the end of a non-empty section).",
             assumptions: vec!["histories never exhaust 2^32 ids".into()],
             trusted_base: vec!["builder model R4".into(), "generated call sites".into()],
         },
